@@ -5,7 +5,7 @@ from vlib.checks import _searchcommon as SC
 ID = PROP = 'C10'
 LEVEL = 'exploration'
 RULE = ('a case is a sentence small enough for the reference to enumerate ALL derivations (<= 5 words, sparse head-uniform table '
-        'grammar with acyclic unary rules, heavy score ties included) parsed with k in {1,2,3,5,10,50, #derivations, #derivations+3}; '
+        'grammar with acyclic unary rules, heavy score ties included) parsed with k in {1,2,3,5,10,50, #derivations, #derivations+3}, pruning_size 50, #tags, #tags+-1 or inside the tag list; '
         'monitors: count == min(k, #derivations), trees pairwise different, scores non-increasing, returned scores == the k largest '
         'derivation scores (exact for dyadic families), every tree a member of the enumeration, first score == the 1-best run. '
         'distinct = fingerprint of (grammar, matrices, k); non-trivial = >= 2 derivations and k >= 2.')
@@ -21,7 +21,10 @@ def shards(tier, seed):
 def gen(rng, spec):
     case = search.gen_case(rng, nbest=rng.choice((1, 2, 2, 3, 5, 10, 50)), max_n=5, sparse=True, many_cats=rng.random() < 0.12,
                            family=rng.choice(('uniform', 'ties', 'ties', 'deceptive', 'softmax', 'uniform64')))
-    case['config']['pruning_size'] = 50
+    T = case['sentences'][0][1].shape[1]
+    # mostly the whole tag list (the enumeration covers every derivation); sometimes a beam that ends exactly at, one before
+    # or inside the list, so that the k best derivations need the last admitted tag of a word
+    case['config']['pruning_size'] = rng.choice((50, 50, T, T, T + 1, max(1, T - 1), rng.randint(1, T)))
     if rng.random() < 0.08:
         search.extreme_rows(rng, case)
     return case
